@@ -111,12 +111,16 @@ Proof.
 Qed.
 
 (* with the fix every read is below the received length *)
-Lemma shownet_fixed_bounded n st : n <= SN_PACKET_SIZE -> bounded n (shownet_handle_fixed n st).
+Lemma shownet_fixed_bounded_any n st : n <= 2147483647 -> bounded n (shownet_handle_fixed n st).
 Proof.
   intros Hn. sn_unfold. repeat bstep.
   - apply bounded_bind; [|intros; constructor]. apply rle_decode_bounded; lia.
   - apply set_range_rd_bounded; [right; lia|]. intros; constructor.
 Qed.
+
+(* for the capacity of the real receive buffer *)
+Lemma shownet_fixed_bounded n st : n <= SN_PACKET_SIZE -> bounded n (shownet_handle_fixed n st).
+Proof. intros Hn. apply shownet_fixed_bounded_any. unfold SN_PACKET_SIZE in Hn. lia. Qed.
 
 (* ---------------------------------------------------------------- a syntactic guard *)
 (* Written from the datagram's own fields, in the order the handler tests them: the datagram is dropped
@@ -225,4 +229,31 @@ Proof.
     [reflexivity|].
   destruct (g16le d (6 + 8) =? 0); [reflexivity|].
   destruct (find_h st ((g16le d (6 + 0) - 1) / DMX_UNIVERSE_SIZE)); reflexivity.
+Qed.
+
+(* ---------------------------------------------------------------- a state-independent guard, and histories *)
+Definition sn_uni (d : list N) : N := (g16le d (SN_HEADER_SIZE + SN_OFF_netSlot) - 1) / DMX_UNIVERSE_SIZE.
+(* sn_syn for a node that has a handler for exactly the datagram's universe: the strongest case *)
+Definition sn_all (d : list N) : bool := sn_syn d [(sn_uni d, None)].
+
+Lemma sn_all_any d st : sn_all d = true -> sn_syn d st = true.
+Proof.
+  unfold sn_all, sn_syn, sn_guard, sn_uni. cbv zeta. cbn [find_h]. rewrite N.eqb_refl.
+  repeat match goal with |- context [if ?c then _ else _] => destruct c end;
+    intros; try reflexivity; try discriminate; try assumption.
+Qed.
+
+Definition sn_step (_ : unit) (n : N) (st : handlers) : prog sn_out := shownet_handle n st.
+Definition sn_next (_ : handlers) (r : sn_out) : handlers := fst r.
+
+Lemma sn_hist_within : forall ds st,
+  Forall (fun d => bytes_ok d = true /\ len d <= SN_PACKET_SIZE /\ sn_all d = true) ds ->
+  within_hist sn_step sn_next st (map (fun d => (tt, d)) ds).
+Proof.
+  induction ds as [|d ds IH]; intros st Hf; cbn [map within_hist]; [exact Logic.I|].
+  inversion Hf as [|x l (Hb & Hl & Ha) Hr]; subst.
+  pose proof (sn_syn_within d st Hb Hl (sn_all_any d st Ha)) as Hw.
+  unfold sn_within, completes in Hw. unfold sn_step at 1.
+  destruct (run d (shownet_handle (len d) st)) as [r|z] eqn:E; [|discriminate].
+  exists r. split; [reflexivity|]. apply IH. exact Hr.
 Qed.
